@@ -766,7 +766,75 @@ def r20_14(chk):
     chk.floor("R20.14", 1, "cast_str_to_numeric")
 
 
+def r20_15(chk):
+    chk.rule("R20.15", "row-wise callbacks see exactly the columns asked for: wherever Table evaluates `_callback(callback, row=row, num_columns=N)` over the rows of a sub-table, N is len(<cols>) and the sub-table is `self[:, <cols>]` (or get_columns(<cols>, with_index=False)) for the SAME <cols> -- get_columns(<cols>) silently prepends the index column when index_name is set, so the callback of with_new_column / filtered / count would get (index, a, b) for columns=[a, b], and a one-column callback a sequence instead of the cell")
+    m = chk.repo.module(TABLE)
+    ci = m.cls("Table")
+    n = 0
+    for name, fn in ci.methods.items():
+        if not isinstance(fn, ast.FunctionDef):
+            continue
+        cbs = [c for c in ast.walk(fn) if isinstance(c, ast.Call) and call_name(c) == "_callback" and any(kw.arg == "num_columns" for kw in c.keywords)]
+        if not cbs:
+            continue
+        n += 1
+        c = cbs[0]
+        q = f"Table.{name}"
+        k = key(m, q, "callback rows come from the requested columns only")
+        assigns = {}
+        for st in walk_no_nested(fn):
+            if isinstance(st, ast.Assign) and len(st.targets) == 1 and isinstance(st.targets[0], ast.Name):
+                assigns.setdefault(st.targets[0].id, []).append(st.value)
+
+        def last(nm):
+            v = assigns.get(nm)
+            return v[-1] if v else None
+
+        ncol = next(kw.value for kw in c.keywords if kw.arg == "num_columns")
+        if isinstance(ncol, ast.Name):
+            ncol = last(ncol.id) or ncol
+        cols = norm(ncol.args[0]) if isinstance(ncol, ast.Call) and call_name(ncol) == "len" and ncol.args else None
+        # the iterable of the comprehension / loop whose element is passed as row=
+        rowarg = next((kw.value for kw in c.keywords if kw.arg == "row"), None)
+        src = None
+        for x in ast.walk(fn):
+            if isinstance(x, (ast.ListComp, ast.GeneratorExp)) and any(c is y for y in ast.walk(x.elt)):
+                src = x.generators[0].iter
+            if isinstance(x, ast.For) and any(c is y for st in x.body for y in ast.walk(st)):
+                src = x.iter
+        # follow local names back to the sub-table expression
+        seen = 0
+        subs = []
+        work = [src] if src is not None else []
+        while work and seen < 20:
+            e = work.pop()
+            seen += 1
+            if isinstance(e, ast.Name) and e.id in assigns:
+                work.extend(assigns[e.id][-1:])
+            elif isinstance(e, ast.IfExp):
+                work.extend([e.body, e.orelse])
+            elif isinstance(e, ast.Attribute) and e.attr in ("array", "columns"):
+                work.append(e.value)
+            elif isinstance(e, ast.Call) and isinstance(e.func, ast.Attribute) and e.func.attr in ("tolist", "to_list"):
+                work.append(e.func.value)
+            else:
+                subs.append(e)
+        if cols is None or not subs:
+            chk.unresolved("R20.15", k, m.loc(c), f"num_columns / row source not recognised (num_columns={norm(ncol)})")
+            continue
+        bad = None
+        for e in subs:
+            if isinstance(e, ast.Subscript) and norm(e.value) == "self" and isinstance(e.slice, ast.Tuple) and len(e.slice.elts) == 2 and isinstance(e.slice.elts[0], ast.Slice) and norm(e.slice.elts[1]) == cols:
+                continue
+            if isinstance(e, ast.Call) and norm(e.func) == "self.get_columns" and e.args and norm(e.args[0]) == cols and any(kw.arg == "with_index" and isinstance(kw.value, ast.Constant) and kw.value.value is False for kw in e.keywords):
+                continue
+            bad = e
+        chk.decide(bad is None, "R20.15", k, m.loc(bad if bad is not None else c), f"rows of self[:, {cols}], num_columns=len({cols})", f"the callback is told it gets len({cols}) cells but its rows come from `{norm(bad) if bad is not None else ''}`: with index_name set the index column is prepended (or other columns are seen), so callback(row) is evaluated on the wrong cells")
+    chk.floor("R20.15", 2, "get_row_indices and with_new_column")
+
+
 def run(chk):
+    r20_15(chk)
     r20_14(chk)
     r20_13(chk)
     r20_12(chk)
